@@ -332,6 +332,10 @@ func crossFileState(r *an.Run, m *runModel, rule string) {
 						report(v, u, "updated")
 					}
 				case ssa.CallInstruction:
+					if callee := x.Common().StaticCallee(); callee != nil && onlyReadsArgument(callee, x.Common(), v) {
+						r.Pass(short(f)+"|shared|read-only-argument|"+an.TrimModule(an.CalleeName(x)), u.Pos(), "%s is handed to %s, which only reads scalar fields of it (decided on the callee's body)", describeLocal(v), an.TrimModule(an.CalleeName(x)))
+						continue
+					}
 					report(v, u, "handed to "+an.TrimModule(an.CalleeName(x)))
 				case *ssa.MakeInterface, *ssa.FieldAddr, *ssa.IndexAddr:
 					// the address escapes into a call or is written through
@@ -473,4 +477,78 @@ func runnerStateWriteOnly(r *an.Run, m *runModel) {
 	}
 	sort.Strings(fields)
 	r.Pass(short(f)+"|runner-state-write-only", m.loop.If.Pos(), "fields of the runner written while files are processed (%s) are only appended to there, never read (%d loads inspected)", strings.Join(fields, ", "), n)
+}
+
+// onlyReadsArgument: callee has a body, and the parameter v is bound to is used
+// there only to load pointer-free fields (through phis and nil tests): the call
+// neither writes through the pointer nor keeps it.
+func onlyReadsArgument(callee *ssa.Function, call *ssa.CallCommon, v ssa.Value) bool {
+	if callee.Blocks == nil || call.IsInvoke() || len(call.Args) != len(callee.Params) {
+		return false
+	}
+	found := false
+	for i, a := range call.Args {
+		if a != v {
+			continue
+		}
+		found = true
+		seen := map[ssa.Value]bool{}
+		var ok func(x ssa.Value) bool
+		ok = func(x ssa.Value) bool {
+			if seen[x] {
+				return true
+			}
+			seen[x] = true
+			refs := x.Referrers()
+			if refs == nil {
+				return true
+			}
+			for _, u := range *refs {
+				switch u := u.(type) {
+				case *ssa.Phi:
+					if !ok(u) {
+						return false
+					}
+				case *ssa.FieldAddr:
+					if !ok(u) {
+						return false
+					}
+				case *ssa.UnOp:
+					if u.Op != token.MUL || hasReference(u.Type()) {
+						return false
+					}
+				case *ssa.BinOp:
+					if u.Op != token.EQL && u.Op != token.NEQ {
+						return false
+					}
+				case *ssa.DebugRef:
+				default:
+					return false
+				}
+			}
+			return true
+		}
+		if !ok(callee.Params[i]) {
+			return false
+		}
+	}
+	return found
+}
+
+// hasReference: a value of type t can share memory with another value.
+func hasReference(t types.Type) bool {
+	switch u := t.Underlying().(type) {
+	case *types.Basic:
+		return u.Kind() == types.UnsafePointer
+	case *types.Struct:
+		for i := 0; i < u.NumFields(); i++ {
+			if hasReference(u.Field(i).Type()) {
+				return true
+			}
+		}
+		return false
+	case *types.Array:
+		return hasReference(u.Elem())
+	}
+	return true
 }
